@@ -158,7 +158,11 @@ impl<'tcx> Cx<'tcx> {
     fn expr(&self, e: &hir::Expr<'tcx>) -> Json {
         use hir::ExprKind as K;
         let mut j = match &e.kind {
-            K::ConstBlock(_) => obj! { "e": Json::s("constblock") },
+            K::ConstBlock(cb) => {
+                // Inline consts share the typeck results of their enclosing body.
+                let body = self.tcx.hir_body(cb.body);
+                obj! { "e": Json::s("constblock"), "a": self.expr(body.value) }
+            }
             K::Array(es) => obj! { "e": Json::s("array"), "elems": self.exprs(es) },
             K::Call(f, args) => obj! { "e": Json::s("call"), "f": self.expr(f), "args": self.exprs(args) },
             K::MethodCall(seg, recv, args, _) => {
